@@ -30,6 +30,9 @@ on.
 Round 6: strictness under python -O (asserts stripped, unbound locals raise); the constructor's
 decision tree for derived attributes is known to the delimiter rules; pack does not resize the
 value.
+Round 7: a kind served by several strategies told apart by a further test of _compile; a delimiter
+left out of the value is remembered for pack on that path (e'); a sized read is never rejected by
+the cursor position alone; includes the evaluator discipline of C09 (sizes given as expressions).
 """
 import ast
 
